@@ -5,6 +5,7 @@ import (
 	"fmt"
 	"github.com/arr-ai/hash"
 	"reflect"
+	"sort"
 
 	"github.com/arr-ai/arrai/pkg/fu"
 
@@ -81,7 +82,7 @@ func (u UnionSet) Enumerator() ValueEnumerator {
 }
 
 type unionSetOrderedEnumerator struct {
-	set     frozen.Iterator[any]
+	subsets []Set
 	current ValueEnumerator
 }
 
@@ -89,11 +90,24 @@ func (e *unionSetOrderedEnumerator) MoveNext() bool {
 	if e.current != nil && e.current.MoveNext() {
 		return true
 	}
-	if !e.set.Next() {
+	if len(e.subsets) == 0 {
 		return false
 	}
-	e.current = e.set.Value().(Set).ArrayEnumerator()
+	e.current = e.subsets[0].ArrayEnumerator()
+	e.subsets = e.subsets[1:]
 	return e.current.MoveNext()
+}
+
+// orderedSubsets returns the subsets ordered by Set.Less. They are sorted as a
+// slice because collecting them with u.m.Values() builds a frozen.Set, which
+// compares its elements with == and panics for subsets such as Relation.
+func (u UnionSet) orderedSubsets() []Set {
+	subsets := make([]Set, 0, u.m.Count())
+	for i := u.m.Range(); i.Next(); {
+		subsets = append(subsets, i.Value().(Set))
+	}
+	sort.Slice(subsets, func(i, j int) bool { return subsets[i].Less(subsets[j]) })
+	return subsets
 }
 
 func (e *unionSetOrderedEnumerator) Current() Value {
@@ -104,9 +118,7 @@ func (u UnionSet) ArrayEnumerator() ValueEnumerator {
 	return &unionSetOrderedEnumerator{
 		// ordered by rel.Set because the bucket keys are strings
 		// which wouldn't provide the correct sorting based on type.
-		set: u.m.Values().OrderedRange(
-			func(a, b interface{}) bool { return a.(Set).Less(b.(Set)) },
-		),
+		subsets: u.orderedSubsets(),
 		current: nil,
 	}
 }
@@ -196,20 +208,15 @@ func (u UnionSet) Less(v Value) bool {
 		return u.Kind() < v.Kind()
 	}
 	x := v.(UnionSet)
-	less := func(a, b interface{}) bool {
-		return a.(Set).Less(b.(Set))
-	}
-	a := u.m.Values().OrderedRange(less)
-	b := x.m.Values().OrderedRange(less)
-	for {
-		aHasMore, bHasMore := a.Next(), b.Next()
+	a, b := u.orderedSubsets(), x.orderedSubsets()
+	for i := 0; ; i++ {
 		switch {
-		case !aHasMore:
-			return bHasMore
-		case !bHasMore:
+		case i >= len(a):
+			return i < len(b)
+		case i >= len(b):
 			return false
 		}
-		aSubset, bSubset := a.Value().(Set), b.Value().(Set)
+		aSubset, bSubset := a[i], b[i]
 		if aSubset.Less(bSubset) {
 			return true
 		}
